@@ -1226,6 +1226,10 @@ def shards(tier, seed):
     out.append({"kind": "dim_values"})
     for start in (1, 5):
         out.append({"kind": "dim_derived", "start": start})
+    # third dimension audit
+    out.append({"kind": "dim_operands"})
+    for hs in HASH_SEEDS:
+        out.append({"kind": "dim_hashseed", "hashseed": hs})
     # cheap single-location shards first (they finish first and supply the minimal witnesses), then the
     # heavy products, widest first
     light = {"aseq1": 0, "findex": 1, "revcomp1": 2, "container": 3, "values": 3, "annot1": 3}
@@ -1349,6 +1353,10 @@ def run_shard(shard, ctx):
         run_dim_values(ctx, p)
     elif kind == "dim_derived":
         run_dim_derived(shard, ctx, p)
+    elif kind == "dim_operands":
+        run_dim_operands(ctx, p)
+    elif kind == "dim_hashseed":
+        run_dim_hashseed(shard, ctx, p)
     elif kind == "container":
         run_container(ctx, p)
     elif kind == "values":
@@ -2327,11 +2335,205 @@ def run_dim_derived(shard, ctx, p):
 
 
 # ---------------------------------------------------------------------------
+# third dimension audit: operands of different size (F), ambient state = hash seed (G), defaults (H),
+# boundaries of the running min / max in get_location_range (I)
+# ---------------------------------------------------------------------------
+def run_dim_operands(ctx, p):
+    bs = _bt()["bs"]
+    # ---- F: == / != between annotated sequences of different size, both directions, against content equality
+    specs = []
+    for start in (1, 5):
+        for seq in ("A", "AC", "ACG", "ACGT", "ACGA", "CGT"):
+            for feats in ([], [["a", [[start, start, 0, 0]]]], [["a", [[start, start, 0, 0]]], ["b", [[start, start + 5, 1, 0]]]],
+                          [["a", [[start, start, 0, 0], [start + 2, start + 2, 0, 0]]]]):
+                specs.append((seq, start, feats))
+    objs = [(sp, mk_x(*sp), (sp[0], sp[1], m_canon(sp[2]))) for sp in specs]
+    for sp1, x1, c1 in objs:
+        for sp2, x2, c2 in objs:
+            ctx.ev(1, 1 if (c1 != c2 and (len(sp1[0]) != len(sp2[0]) or len(sp1[2]) != len(sp2[2]))) else 0)
+            ctx.count("accepted")
+            try:
+                eq, ne = (x1 == x2), (x1 != x2)
+            except Exception as e:  # noqa: BLE001
+                eq, ne = type(e).__name__, None
+            ctx.outcome(("eq", c1 == c2))
+            if eq is not (c1 == c2) or ne is not (c1 != c2):
+                cls = "equal_content" if c1 == c2 else ("other_sequence_length" if len(sp1[0]) != len(sp2[0]) else
+                                                        ("other_feature_count" if len(sp1[2]) != len(sp2[2]) else "same_size"))
+                ctx.violation("AnnotatedSequence.__eq__|wrong_answer|%s" % cls, "== / != disagree with content equality",
+                              {"kind": "aseq_eq", "x1": list(sp1), "x2": list(sp2)}, [c1 == c2, c1 != c2], [eq, ne])
+                break
+    # ---- F: the assigned item has a LARGER alphabet than the target (symbols the target's alphabet lacks exist
+    #         in the item's alphabet, the item itself uses common symbols only), and the other direction
+    for start in (1, 5):
+        for target, amb_item in (("ACGT", True), ("ACGTRY"[:4] + "RY", False), ("ACGT", False)):
+            n = len(target)
+            single = [[f, l, st, 0] for f, l in intervals(start, start + n - 1) for st in (0, 1)]
+            for k in (1, 2):
+                for combo in itertools.combinations(single, k):
+                    tl = [tuple(l) for l in combo]
+                    if m_feature_get(target, start, tl)[0] != "accept":
+                        continue
+                    locs = [list(l) for l in combo]
+                    m = sum(l[1] - l[0] + 1 for l in tl)
+                    val = SET_LETTERS_UNAMB[:m]
+                    ctx.ev(1, 1)
+                    ctx.count("accepted")
+                    x = mk_x(target, start, [["a", locs]])
+                    item = bs.NucleotideSequence(val, ambiguous=amb_item)
+                    exp = m_feature_set(target, start, tl, val)
+                    case = {"kind": "set_other_alphabet", "seq": target, "start": start, "locs": locs, "ambiguous_item": amb_item}
+                    try:
+                        x[mk_feature("a", locs)] = item
+                        got, back = sstr(x.sequence), sstr(x[mk_feature("a", locs)])
+                    except Exception as e:  # noqa: BLE001
+                        got, back = type(e).__name__, None
+                    ctx.outcome(("alph", got))
+                    if got != exp or back != val:
+                        ctx.violation("AnnotatedSequence.__setitem__(Feature)|wrong_bases_written|%s+item_of_%s_alphabet"
+                                      % (floc_class(tl), "larger" if amb_item else "smaller_or_same"),
+                                      "assignment of an item with another nucleotide alphabet", case, [exp, val], [got, back])
+    # ---- H: a value given explicitly vs its default: both spellings give equal objects
+    for l in locs_over(-1, 1, [0]):
+        ctx.ev(1, 0)
+        ctx.count("accepted")
+        a = bs.Location(l[0], l[1])
+        b = mk_loc([l[0], l[1], 0, 0])
+        fa, fb = bs.Feature("a", [a]), bs.Feature("a", [b], {})
+        if not (a == b) or hash(a) != hash(b) or not (fa == fb) or hash(fa) != hash(fb) or obs_loc(a) != (l[0], l[1], 0, 0) \
+                or fa.qual != {}:
+            ctx.violation("Location.__init__|default_differs_from_explicit|any", "default strand / defect / qual differ "
+                          "from FORWARD / NONE / {}", {"kind": "defaults", "l": l}, None, None)
+    x = mk_x("ACG", 5, [["a", [[5, 6, 0, 0]]]])
+    ctx.ev(1, 1)
+    ctx.count("accepted")
+    if obs_x(x.reverse_complement()) != obs_x(x.reverse_complement(sequence_start=1)) or \
+            obs_x(bs.AnnotatedSequence(mk_annot([]), mk_seq("ACG"))) != ("ACG", 1, frozenset()):
+        ctx.violation("AnnotatedSequence|default_sequence_start_not_1|any", "documented default sequence_start is 1",
+                      {"kind": "defaults"}, 1, None)
+    # ---- I: get_location_range = running minimum / maximum over the locations (documented: first and EXCLUSIVE
+    #         last for Annotation, first and last for Feature): all negative, all equal, zero, winner not first
+    pool = [[f, l, 0, 0] for f, l in intervals(-3, 2)]
+    for k in (1, 2, 3):
+        for combo in itertools.combinations(pool, k):
+            if k == 3 and combo[0][0] != -3 and combo[0][0] != 0:
+                continue  # complete sub-space: triples whose first location starts at -3 or at 0
+            for order in (combo, tuple(reversed(combo))):
+                locs = [list(l) for l in order]
+                ctx.ev(1, 1 if (k > 1 or locs[0][1] < 0) else 0)
+                ctx.count("accepted")
+                want = (min(l[0] for l in locs), max(l[1] for l in locs))
+                cls = "all_negative" if want[1] < 0 else ("touches_zero" if 0 in (want[0], want[1]) else "mixed_or_positive")
+                case = {"kind": "location_range", "locs": locs}
+                f = mk_feature("a", locs)
+                got_f = tuple(int(v) for v in f.get_location_range())
+                an1 = mk_annot([["a", locs]])
+                an2 = mk_annot([["k%d" % i, [l]] for i, l in enumerate(locs)])
+                got_a = [tuple(int(v) for v in an.get_location_range()) for an in (an1, an2)]
+                ctx.outcome(("range", got_f))
+                if got_f != want:
+                    ctx.violation("Feature.get_location_range|wrong_range|%s" % cls, "minimum first / maximum last of the "
+                                  "locations", case, list(want), list(got_f))
+                elif any(g != (want[0], want[1] + 1) for g in got_a):
+                    ctx.violation("Annotation.get_location_range|wrong_range|%s" % cls, "first and exclusive last base over "
+                                  "all features", case, [want[0], want[1] + 1], [list(g) for g in got_a])
+    try:
+        r = mk_annot([]).get_location_range()
+        ctx.count("unspecified_location_range_of_empty_annotation_returned")
+        ctx.outcome(("empty_range", repr(r)))
+    except Exception as e:  # noqa: BLE001
+        ctx.count("unspecified_location_range_of_empty_annotation_raised_%s" % type(e).__name__)
+    ctx.sample({"kind": "location_range", "locs": [[-3, -2, 0, 0], [-2, -1, 0, 0]]})
+
+
+HASH_SEEDS = ["1", "2", "4242"]
+
+
+def hash_family(ctx, p):
+    """The space walked under every hash seed: every feature of 1..3 locations on n = 4 (get and set, both
+    strands) and every slice of every 2-location annotation on n = 2."""
+    for start in (1, 5):
+        n = 4
+        seq = seq_for(p["letters"], n)
+        single = [[f, l, st, 0] for f, l in intervals(start, start + n - 1) for st in (0, 1)]
+        for k in (1, 2, 3):
+            for combo in itertools.combinations(single, k):
+                locs = [list(l) for l in combo]
+                check_findex(ctx, seq, start, locs, "get")
+                check_findex(ctx, seq, start, locs, "set")
+        n = 2
+        seq = seq_for(p["letters"], n)
+        full = locs_over(start - 1, start + n, [0, ML])
+        plain = locs_over(start - 1, start + n, [0])
+        for pr in pairs(full, plain):
+            run_aseq_one(ctx, seq, start, [["a", pr]], aseq_slices(n, start))
+            check_revcomp(ctx, seq, start, [["a", pr]], start + 3)
+
+
+def _hash_child():
+    """Entry point of the child interpreter (other PYTHONHASHSEED): prints one JSON line."""
+    import sys
+
+    from mc.ctx import Ctx
+
+    tier, seed = sys.argv[1], int(sys.argv[2])
+    ctx = Ctx(ID, tier, seed)
+    only = json.loads(sys.argv[3]) if len(sys.argv) > 3 else None
+    if only is None:
+        hash_family(ctx, pal(seed))
+    else:
+        _replay(only, ctx)
+    r = ctx.result()
+    print(json.dumps({"ev": r["evaluations"], "nontrivial": r["nontrivial"], "counters": r["counters"],
+                      "violations": r["violations"], "viol_per_sig": r["viol_per_sig"],
+                      "outcomes": len(r["outcomes"])}))
+
+
+def _run_hash_child(ctx, hs, only=None):
+    import os
+    import subprocess
+    import sys
+
+    verif = os.path.dirname(os.path.dirname(os.path.abspath(__file__)))
+    code = ("import sys; sys.path.insert(0, %r); from mc import loader; loader.install(); "
+            "import props.c13 as m; m._hash_child()" % verif)
+    args = [sys.executable, "-c", code, ctx.tier, str(ctx.seed)] + ([json.dumps(only)] if only is not None else [])
+    r = subprocess.run(args, capture_output=True, text=True, cwd=verif, timeout=900,
+                       env=dict(os.environ, PYTHONHASHSEED=hs, PYTHONDONTWRITEBYTECODE="1"))
+    if r.returncode != 0 or not r.stdout.strip():
+        raise RuntimeError("hash-seed child failed: %s" % r.stderr[-800:])
+    return json.loads(r.stdout.strip().splitlines()[-1])
+
+
+def run_dim_hashseed(shard, ctx, p):
+    """G: the only ambient input of the anchored code is the interpreter's hash seed (iteration order of the
+    frozenset of locations and of the set of features).  The family space is executed in child interpreters
+    started with other PYTHONHASHSEED values; results must equal the same model."""
+    hs = shard["hashseed"]
+    res = _run_hash_child(ctx, hs)
+    ctx.ev(res["ev"], res["nontrivial"])
+    for k, v in res["counters"].items():
+        ctx.count(k, v)
+    ctx.outcome(("hashseed", hs, res["outcomes"]))
+    for v in res["violations"]:
+        case = dict(v["case"]) if isinstance(v["case"], dict) else {"case": v["case"]}
+        case["hashseed"] = hs
+        ctx.violation(v["sig"] + "+other_hash_seed", v["what"], case, v["expected"], v["observed"])
+    ctx.sample({"kind": "hashseed_family", "hashseed": hs, "cases": res["ev"]})
+
+
+# ---------------------------------------------------------------------------
 # replay
 # ---------------------------------------------------------------------------
 def replay(case, ctx):
     if isinstance(case, str):
         case = json.loads(case)
+    if isinstance(case, dict) and case.get("hashseed"):
+        hs = case["hashseed"]
+        res = _run_hash_child(ctx, hs, {k: v for k, v in case.items() if k != "hashseed"})
+        for v in res["violations"]:
+            ctx.violation(v["sig"] + "+other_hash_seed", v["what"], case, v["expected"], v["observed"])
+        return
     if isinstance(case, dict) and case.get("derived"):
         d = case["derived"]
         _DERIVE[0] = (d["seq"], d["start"], d["feats"], d["op"])
@@ -2407,6 +2609,8 @@ def _replay(case, ctx):
         check_result_identity(ctx, case["seq"], case["start"], case["feats"])
     elif k == "derived":
         check_derived(ctx, case["seq"], case["start"], case["feats"], case["op"])
+    elif k in ("aseq_eq", "set_other_alphabet", "defaults", "location_range"):
+        run_dim_operands(ctx, pal(ctx.seed))
     elif k == "all_letters_set":
         run_dim_values(ctx, pal(ctx.seed))
     elif k in ("empty_feature", "bad_location"):
